@@ -39,12 +39,21 @@
 (*                                        needs overlapping create/ooc/drop*)
 (*   exist/list: 0                        needs an overlapping create/ooc  *)
 (*           (a service whose static config is still locked is not listed) *)
-(*   open (only the pattern with own resources, i.e. the blackboard):      *)
-(*           ServiceInCorruptedState      needs overlapping create/ooc/drop*)
-(*           ("some underlying resources are missing" - they are, while    *)
-(*           another call creates or removes them)                         *)
 (* Without such an overlap every call must be explained by the atomic      *)
 (* object - in particular in sequential histories.                         *)
+(*                                                                         *)
+(* KNOWN DEVIATION (known_findings.json, signature                         *)
+(* trace:bb:open:ServiceInCorruptedState:overlapping-create-or-last-drop). *)
+(* The blackboard open() reports ServiceInCorruptedState for a healthy     *)
+(* service that is merely being created or torn down concurrently (it      *)
+(* opens the additional resources before the dynamic config).  This is a   *)
+(* defect, not an allowed transient error.  So that ONE known defect does  *)
+(* not end the validation of every blackboard history, the trace           *)
+(* specification steps over exactly this case - pattern "bb", call open,   *)
+(* overlapped by a create/ooc or by the drop of the LAST user ("lastdrop") *)
+(* - with the rule RetKnownDeviation below; the check reports every history*)
+(* in which the rule was needed as a violation with that signature.  Any   *)
+(* other ServiceInCorruptedState stays unexplainable.                      *)
 (*                                                                         *)
 (* The configuration of a run (pattern, builder records, defaults) is not  *)
 (* part of the state: `ek` is a small key and Env(ek) the record           *)
@@ -99,7 +108,9 @@ Call(t, a, nd, c, h) ==
                   IF u = t
                   THEN [st |-> "called", a |-> a, nd |-> nd, c |-> c, h |-> h, r |-> "-",
                         id |-> 0, sc |-> 0, v |-> 0,
-                        ov |-> {pend[x].a : x \in {y \in Threads \ {t} : pend[y].st # "idle"}}]
+                        ov |-> {pend[x].a : x \in {y \in Threads \ {t} : pend[y].st # "idle"}}
+                               \cup {"lastdrop" : x \in {y \in Threads \ {t} :
+                                          pend[y].st = "done" /\ pend[y].a = "drop" /\ pend[y].v = 1}}]
                   ELSE IF pend[u].st # "idle"
                        THEN [pend[u] EXCEPT !.ov = @ \cup {a}]
                        ELSE pend[u]]
@@ -134,7 +145,8 @@ OocOutcomes(p) ==
 DropOutcomes(p) ==
     IF svc.ex /\ <<p.h, p.nd>> \in svc.users
     THEN LET u == svc.users \ {<<p.h, p.nd>>} IN
-         {Out("Ok", 0, 0, 0, IF u = {} THEN Absent ELSE [svc EXCEPT !.users = u], FALSE)}
+         {Out("Ok", 0, 0, IF u = {} THEN 1 ELSE 0,          \* v = 1: the drop of the last user
+              IF u = {} THEN Absent ELSE [svc EXCEPT !.users = u], FALSE)}
     ELSE {}       \* dropping a handle of a service that does not exist (any more): unexplainable
 
 ExistOutcomes(p) == {Out("Ok", 0, 0, IF svc.ex THEN 1 ELSE 0, svc, FALSE)}
@@ -149,14 +161,22 @@ Outcomes(t) ==
       [] OTHER -> {}
 
 LinWith(t, o) ==
-    /\ pend' = [pend EXCEPT ![t] = [@ EXCEPT !.st = "done", !.r = o.r, !.id = o.id, !.sc = o.sc, !.v = o.v]]
+    /\ pend' = [u \in Threads |->
+                  IF u = t
+                  THEN [pend[t] EXCEPT !.st = "done", !.r = o.r, !.id = o.id, !.sc = o.sc, !.v = o.v]
+                  ELSE IF pend[t].a = "drop" /\ o.v = 1 /\ pend[u].st # "idle"
+                       THEN [pend[u] EXCEPT !.ov = @ \cup {"lastdrop"}]      \* overlapped by a teardown
+                       ELSE pend[u]]
     /\ svc' = o.nsvc
     /\ gh' = IF o.cr THEN [gh EXCEPT !.next = @ + 1] ELSE gh
     /\ UNCHANGED ek
 
+\* pend[t].v = 2 on a called drop: an obligation (set by RetKnownDeviation) to be the last user's drop
+Obliged(t, o) == pend[t].a = "drop" /\ pend[t].v = 2 => o.v = 1
+
 Lin(t) ==
     /\ pend[t].st = "called"
-    /\ \E o \in Outcomes(t) : LinWith(t, o)
+    /\ \E o \in Outcomes(t) : Obliged(t, o) /\ LinWith(t, o)
 
 \* ---------------------------------------------------------------- transient documented errors
 Transient(a, r, v, ov) ==
@@ -165,12 +185,29 @@ Transient(a, r, v, ov) ==
        /\ ov \cap Creators # {}
     \/ /\ a = "open" /\ r = "IsMarkedForDestruction" /\ "drop" \in ov
     \/ /\ a = "open" /\ r = "HangsInCreation" /\ ov \cap Mutators # {}
-    \/ /\ a = "open" /\ r = "ServiceInCorruptedState" /\ P = "bb" /\ ov \cap Mutators # {}
     \/ /\ a = "ooc"
        /\ r \in {"Open:IsMarkedForDestruction", "Open:HangsInCreation", "Open:DoesNotExist",
                  "Create:AlreadyExists", "Create:IsBeingCreatedByAnotherInstance", "SystemInFlux"}
        /\ ov \cap Mutators # {}
     \/ /\ a \in {"exist", "list"} /\ r = "Ok" /\ v = 0 /\ ov \cap Creators # {}
+
+\* The one known defect that the trace specification steps over (see the header): the call is
+\* overlapped by a create/ooc, by a last user's drop that already took effect ("lastdrop"), or by a
+\* drop that is still to be linearized - which is then OBLIGED to turn out to be the last user's.
+KnownDeviationGuard(t, a, r) ==
+    /\ P = "bb" /\ a = "open" /\ r = "ServiceInCorruptedState"
+    /\ pend[t].st = "called" /\ pend[t].a = a
+    /\ \/ pend[t].ov \cap {"create", "ooc", "lastdrop"} # {}
+       \/ \E u \in Threads \ {t} : pend[u].st = "called" /\ pend[u].a = "drop"
+
+RetKnownDeviation(t, a, r) ==
+    /\ KnownDeviationGuard(t, a, r)
+    /\ \/ /\ pend[t].ov \cap {"create", "ooc", "lastdrop"} # {}
+          /\ pend' = [pend EXCEPT ![t] = IdleRec]
+       \/ \E u \in Threads \ {t} :
+             /\ pend[u].st = "called" /\ pend[u].a = "drop"
+             /\ pend' = [pend EXCEPT ![t] = IdleRec, ![u].v = 2]
+    /\ UNCHANGED <<svc, ek, gh>>
 
 \* ---------------------------------------------------------------- returns
 \* `lid` = the incarnation id the real handle shows (small integers in order of first appearance
@@ -202,7 +239,8 @@ RetTransient(t, a, r, v) ==
     /\ pend' = [pend EXCEPT ![t] = IdleRec]
     /\ UNCHANGED <<svc, ek, gh>>
 
-Ret(t, a, r, lid, s, v, h) == RetDone(t, a, r, lid, s, v, h) \/ RetTransient(t, a, r, v)
+Ret(t, a, r, lid, s, v, h) ==
+    RetDone(t, a, r, lid, s, v, h) \/ RetTransient(t, a, r, v) \/ RetKnownDeviation(t, a, r)
 
 \* quiescent observation: nobody inside a call
 Quiescent(exist, listed, files, shm) ==
